@@ -149,6 +149,16 @@ theorem C04_vm_catch_flag_fresh (n : Nat) (goal catcher recover : Term) (k : Con
     (∀ f b k' env', thunkFl m.user.nextId (.exitAlt f b k' env') → f ≠ m.user.nextId) :=
   vm_catch_flag_fresh n goal catcher recover k env m hm
 
+/-- the environment the recovery closure captures is the environment of the catch/3 CALL (plus
+    `Arrive`'s binding of the context variable to `catch/3`) -/
+theorem C04_vm_catch_arrive (n : Nat) (goal catcher recover : Term) (k : Cont) (env : Env) (m : MS) :
+    arrive (n + 2) "catch" [goal, catcher, recover] k env m =
+      some ({ delayed := [.catchBody goal m.user.nextId k
+                (env.bind varContext (.app "/" (.cons (.atom "catch") (.cons (.int 3) .nil))))],
+              recover := some ⟨m.user.nextId, catcher, recover, k,
+                env.bind varContext (.app "/" (.cons (.atom "catch") (.cons (.int 3) .nil)))⟩ }, (freshId m).2) :=
+  vm_catch_arrive n goal catcher recover k env m
+
 /- **C04_vm_flags_wellformed_preserved**: every step of the VM keeps "all flags mentioned or written
     are below `nextId`", and `nextId` only grows -/
 restate C04_vm_flags_wellformed_preserved := VMCatch.vm_flags_wellformed_preserved
